@@ -10,6 +10,8 @@ package main
 //   rand        math/rand, crypto/rand
 //   global      use of a package-level map / sync.Pool / sync.Once / lru cache variable
 //   global-write  assignment to / increment of any package-level variable
+//   field-write   assignment to a field of a value whose type may be reachable from a package-level variable
+//                 (e.g. the plugin instances registered in executor.globalPlugins)
 // A site is named by package-relative file, enclosing function and an ordinal inside the function (no line
 // numbers, so unrelated edits do not move it).
 
@@ -138,6 +140,89 @@ func extractSites(repo string) ([]string, error) {
 			}
 		}
 	}
+	// G: named types whose instances may be reachable from a package-level variable (closure over the variable
+	// types: pointers, containers, struct fields; a non-empty interface stands for every loaded type implementing it)
+	loadedPkg := map[*types.Package]bool{}
+	for _, p := range pkgs {
+		loadedPkg[p.Types] = true
+	}
+	inG := map[*types.Named]bool{}
+	seenT := map[types.Type]bool{}
+	var visit func(t types.Type)
+	visit = func(t types.Type) {
+		if t == nil || seenT[t] {
+			return
+		}
+		seenT[t] = true
+		switch x := t.(type) {
+		case *types.Named:
+			if x.Obj().Pkg() != nil && loadedPkg[x.Obj().Pkg()] {
+				inG[x] = true
+				visit(x.Underlying())
+			}
+		case *types.Pointer:
+			visit(x.Elem())
+		case *types.Slice:
+			visit(x.Elem())
+		case *types.Array:
+			visit(x.Elem())
+		case *types.Map:
+			visit(x.Key())
+			visit(x.Elem())
+		case *types.Chan:
+			visit(x.Elem())
+		case *types.Struct:
+			for i := 0; i < x.NumFields(); i++ {
+				visit(x.Field(i).Type())
+			}
+		case *types.Interface:
+			if x.NumMethods() == 0 {
+				return
+			}
+			for _, nt := range named {
+				if _, isIface := nt.Underlying().(*types.Interface); isIface {
+					continue
+				}
+				if types.Implements(nt, x) || types.Implements(types.NewPointer(nt), x) {
+					visit(nt)
+				}
+			}
+		}
+	}
+	for _, p := range pkgs {
+		sc := p.Types.Scope()
+		for _, name := range sc.Names() {
+			if v, ok := sc.Lookup(name).(*types.Var); ok {
+				visit(v.Type())
+			}
+		}
+	}
+	// fieldOfG: the assignment target is a field (possibly nested / indexed) of a value whose named type is in G
+	fieldOfG := func(info *types.Info, e ast.Expr) string {
+		for {
+			switch x := e.(type) {
+			case *ast.SelectorExpr:
+				if sel, ok := info.Selections[x]; ok && sel.Kind() == types.FieldVal {
+					t := sel.Recv()
+					if p, ok := t.(*types.Pointer); ok {
+						t = p.Elem()
+					}
+					if nt, ok := t.(*types.Named); ok && inG[nt] {
+						return nt.Obj().Name() + "." + x.Sel.Name
+					}
+				}
+				e = x.X
+			case *ast.IndexExpr:
+				e = x.X
+			case *ast.StarExpr:
+				e = x.X
+			case *ast.ParenExpr:
+				e = x.X
+			default:
+				return ""
+			}
+		}
+	}
 	// implementers of an interface method among the loaded packages
 	implCache := map[string][]string{}
 	impls := func(iface *types.Interface, method string) []string {
@@ -248,6 +333,9 @@ func extractSites(repo string) ([]string, error) {
 				}
 			case *ast.AssignStmt:
 				for _, l := range e.Lhs {
+					if f := fieldOfG(info, l); f != "" {
+						add("field-write", f)
+					}
 					if id := rootIdent(info, l); id != nil {
 						if v, ok := info.Uses[id].(*types.Var); ok && v.Pkg() != nil && v.Parent() == v.Pkg().Scope() {
 							add("global-write", v.Pkg().Name()+"."+v.Name())
@@ -255,6 +343,9 @@ func extractSites(repo string) ([]string, error) {
 					}
 				}
 			case *ast.IncDecStmt:
+				if f := fieldOfG(info, e.X); f != "" {
+					add("field-write", f)
+				}
 				if id := rootIdent(info, e.X); id != nil {
 					if v, ok := info.Uses[id].(*types.Var); ok && v.Pkg() != nil && v.Parent() == v.Pkg().Scope() {
 						add("global-write", v.Pkg().Name()+"."+v.Name())
